@@ -265,7 +265,7 @@ inline Reference* mkref(Cell* target, const RefSpec& s) {
     set_rep(r->repetition, s.rep);
     return r;
 }
-// mid_extra: MID also owns a polygon and a label; top_extra: TOP owns a label
+// mid_extra: MID also owns a polygon, a label and a second (plain, rotated, magnified) reference to LEAF; top_extra: TOP owns a label
 inline World build(int leaf_kind, const RefSpec& s1, const RefSpec& s2, bool mid_extra, bool top_extra) {
     World w;
     w.leaf = (Cell*)allocate_clear(sizeof(Cell)); w.leaf->init("LEAF");
@@ -277,6 +277,12 @@ inline World build(int leaf_kind, const RefSpec& s1, const RefSpec& s2, bool mid
     if (mid_extra) {
         w.mid->polygon_array.append(mkpoly({{-2, -2}, {-1, -2}, {-1.5, -1}}, TAG_B));
         w.mid->label_array.append(mklabel("mid", Vec2{0.5, 0.5}, TAG_A, 0.2, 1, true));
+        // a SECOND reference to LEAF, listed after the first: no repetition, quarter turn, magnified, displaced.  Code that
+        // accumulates the contributions of several references into one array (hulls, boxes, element lists) must keep them apart.
+        Reference* extra = (Reference*)allocate_clear(sizeof(Reference));
+        extra->init(w.leaf);
+        extra->rotation = M_PI / 2; extra->magnification = 2; extra->origin = Vec2{7, -3};
+        w.mid->reference_array.append(extra);
     }
     w.r2 = mkref(w.mid, s2);
     w.top->reference_array.append(w.r2);
